@@ -246,9 +246,12 @@ DiagPinv(v) ==
 
 \* the same for rational values v[i]/den: entries den/v[i] over the common denominator lcm-like L
 DiagPinvQ(v, den) ==
-  LET nz == SelectSeq(v, LAMBDA x : x # 0)
-      L == ProdSeq([i \in 1..Len(nz) |-> Abs(nz[i])])
-  IN DiagMatOver([i \in 1..Len(v) |-> IF v[i] = 0 THEN 0 ELSE den * (L \div Abs(v[i])) * (IF v[i] < 0 THEN -1 ELSE 1)], L)
+  \* every fraction den / v[i] is reduced first (values many orders of magnitude apart stay within 32 bits)
+  LET g(i) == IF v[i] = 0 THEN 1 ELSE Gcd(den, v[i])
+      num(i) == (den \div g(i)) * (IF v[i] < 0 THEN -1 ELSE 1)
+      dd(i) == IF v[i] = 0 THEN 1 ELSE Abs(v[i]) \div g(i)
+      L == ProdSeq([i \in 1..Len(v) |-> dd(i)])
+  IN DiagMatOver([i \in 1..Len(v) |-> IF v[i] = 0 THEN 0 ELSE num(i) * (L \div dd(i))], L)
 
 RECURSIVE Den(_)
 Den(t) ==
